@@ -293,3 +293,44 @@ def index_accept(c):
     c.ensures(accepted="True")
     c.mutant("if k > 3:", "if k > 4:")
     c.mutant("if adapter.read_wildcards:", "if False:")
+
+
+ACC = z3.Function("ACCEPTABLE_FOR_INDEX", I, B, B)
+AnyAdapterT = ObjT("SingleAdapter", __cls__=Int)
+
+
+@contract("adapters.py", "AdapterIndex.is_acceptable", props=[], name="AdapterIndex.is_acceptable@abstract")
+def is_acceptable_abstract(c):
+    c.types(adapter=AnyAdapterT, prefix=Bool)
+    c.returns(Bool)
+    c.spec(lambda cx: cx.spec.update(acceptable=lambda a, p: ACC(a.fields["__id__"], p if is_z3(p) else z3.BoolVal(bool(p)))))
+    c.ensures(deterministic="result == acceptable(adapter, prefix)")
+
+
+api.BY_NAME["AdapterIndex.is_acceptable"] = is_acceptable_abstract
+
+
+@contract("modifiers.py", "AdapterCutter._split_adapters", props=["C08"])
+def split_adapters(c):
+    """Every adapter goes into exactly one of the three groups: the 5' anchored ones an index accepts, the 3' anchored ones an
+    index accepts, and all others (which are searched one by one)."""
+    c.types(adapters=SeqT(AnyAdapterT))
+    c.returns(TupT(SeqT(AnyAdapterT), SeqT(AnyAdapterT), SeqT(AnyAdapterT)))
+    for nme in ("prefix", "suffix", "other"):
+        c.local_types[nme] = SeqT(AnyAdapterT)
+
+    def sp(cx):
+        t = z3.Int("t!sa")
+        cx.spec["acceptable_id"] = lambda i, p: ACC(i, z3.BoolVal(bool(p.v if isinstance(p, PyConst) else p)) if not is_z3(p) else p)
+        cx.spec["all_in"] = lambda seq, f: FORALL([t], z3.Implies(z3.And(0 <= t, t < seq.n), f(seq.arr[t])))
+        T_, F_ = z3.BoolVal(True), z3.BoolVal(False)
+        cx.spec["group_ok"] = lambda pre, suf, oth: z3.And(
+            FORALL([t], z3.Implies(z3.And(0 <= t, t < pre.n), ACC(pre.arr[t], T_))),
+            FORALL([t], z3.Implies(z3.And(0 <= t, t < suf.n), z3.And(z3.Not(ACC(suf.arr[t], T_)), ACC(suf.arr[t], F_)))),
+            FORALL([t], z3.Implies(z3.And(0 <= t, t < oth.n), z3.And(z3.Not(ACC(oth.arr[t], T_)), z3.Not(ACC(oth.arr[t], F_))))))
+    c.spec(sp)
+    c.loop(1, head="for a in adapters", inv=["0 <= __k1 <= len(adapters)", "len(prefix) + len(suffix) + len(other) == __k1", "group_ok(prefix, suffix, other)"])
+    c.ensures(no_adapter_is_lost_or_duplicated="len(result[0]) + len(result[1]) + len(result[2]) == len(adapters)",
+              each_group_holds_what_it_should="group_ok(result[0], result[1], result[2])")
+    c.mutant("elif AdapterIndex.is_acceptable(a, prefix=False):", "elif AdapterIndex.is_acceptable(a, prefix=True):")
+    c.mutant("other.append(a)", "pass")
